@@ -22,7 +22,7 @@ type dbgRec struct {
 func (g *Gen) allocFresh(pfx string) string {
 	r := g.newConst(pfx, "Int")
 	al := g.sv("$alloc", "(Array Int Bool)")
-	g.assume(fmt.Sprintf("(and (not (= %s 0)) (not (select %s %s)))", r, al, r))
+	g.assume(fmt.Sprintf("(and (not (= %s 0)) (not (select %s %s)) (= (subtag %s) 0))", r, al, r, r))
 	g.setSV("$alloc", "(Array Int Bool)", fmt.Sprintf("(store %s %s true)", al, r))
 	return r
 }
@@ -821,9 +821,9 @@ func (g *Gen) binop(x *ssa.BinOp) string {
 		case token.SUB:
 			return fmt.Sprintf("(- %s %s)", a.S, b.S)
 		case token.MUL:
-			return fmt.Sprintf("(* %s %s)", a.S, b.S)
+			return g.realMul(x.X, x.Y, a.S, b.S)
 		case token.QUO:
-			return fmt.Sprintf("(/ %s %s)", a.S, b.S)
+			return g.realDiv(x.Y, a.S, b.S)
 		}
 	}
 	w, uns := uintWidth(x.Type())
@@ -1281,9 +1281,13 @@ func (g *Gen) nextInstr(x *ssa.Next) {
 	m := g.term(rng.X).S
 	seen := g.sv(n, "(Array "+ks+" Bool)")
 	dom := fmt.Sprintf("(select %s %s)", g.sv(md, "(Array Int (Array "+ks+" Bool))"), m)
+	if kT.Sort != ks {
+		g.note("map range with unused key: iteration order/visited set not modelled for this loop")
+		return
+	}
 	g.assume(imp(okT.S, fmt.Sprintf("(and (select %s %s) (not (select %s %s)))", dom, kT.S, seen, kT.S)))
 	g.assume(imp(not(okT.S), fmt.Sprintf("(forall ((k %s)) (=> (select %s k) (select %s k)))", ks, dom, seen)))
-	if !strings.HasPrefix(vs, "S_") {
+	if !strings.HasPrefix(vs, "S_") && vT.Sort == vs {
 		g.assume(imp(okT.S, fmt.Sprintf("(= %s (select (select %s %s) %s))", vT.S, g.sv(mv, "(Array Int (Array "+ks+" "+vs+"))"), m, kT.S)))
 		g.assume(g.typeInv(vT.S, mt.Elem()))
 	}
@@ -1371,4 +1375,25 @@ func (g *Gen) runDefers() {
 		}
 		g.cur = merged
 	}
+}
+
+// Real multiplication/division of two non-constant operands is kept uninterpreted (rmul/rdiv): the
+// proofs that need it are congruence arguments, and nonlinear real arithmetic makes the solvers time out.
+func isConstVal(v ssa.Value) bool { _, ok := v.(*ssa.Const); return ok }
+
+func (g *Gen) realMul(x, y ssa.Value, a, b string) string {
+	if (x != nil && isConstVal(x)) || (y != nil && isConstVal(y)) {
+		return fmt.Sprintf("(* %s %s)", a, b)
+	}
+	g.declFun("rmul", "(Real Real) Real")
+	g.note("float64 products/quotients of two variables are uninterpreted (rmul/rdiv); IEEE rounding dropped")
+	return fmt.Sprintf("(rmul %s %s)", a, b)
+}
+
+func (g *Gen) realDiv(y ssa.Value, a, b string) string {
+	if y != nil && isConstVal(y) {
+		return fmt.Sprintf("(/ %s %s)", a, b)
+	}
+	g.declFun("rdiv", "(Real Real) Real")
+	return fmt.Sprintf("(rdiv %s %s)", a, b)
 }
